@@ -36,6 +36,12 @@ CLAIMED = {
  'C17': ('exploration', 'compile probes (one TU per documented member, compiler as oracle) + differential runtime monitor C++ vs C API per keying path',
          '404 compile probes (808 with clang++ in thorough) over every documented member/overload; sessions over all keying paths and overloads of 12 cipher classes compared with the C functions; hash/xof templates vs the reference.',
          'g++ 12 / clang++ 14 only.', '4 C17'),
+ 'C15': ('fault_enumeration', 'link-time getrandom()/storage interposers with scripted faults + trace monitors (determinism, influence, inverse-permutation invariant, reseed counter, status)',
+         'Random PRNG histories run under a scripted entropy tape with ENOSYS/EINTR/EAGAIN scripts and storage faults; for histories with <= 8 source calls all 2^k failure subsets are enumerated; the forward-security invariant is observed after every operation through the public extract + reference inverse permutation.',
+         'Structure only, no output model; histories sampled; 2^-64 coincidences ignored.', '4 C15'),
+ 'C20': ('exploration', 'model-based runtime monitor (decoder model; std::vector shadow objects compared after every operation) + ASan/UBSan + guard pages',
+         'Hex codec on exact guard-page buffers against a small model incl. every byte value at every position of short strings; NO_STL byte_array sequences shadowed by std::vector on 4 aliased objects, release and ASan builds.',
+         'Operation sequences sampled; undefined vector operations not called.', '4 C20'),
  'C08': ('exploration', 'differential runtime monitor vs reference model + ASan/UBSan + guard pages',
          'Real library built for each of the 5 host backends (release and ASan+UBSan), every (offset,size) pair exhaustively, '
          'structured + random states for all 12 starting rounds, each output compared with an independent reference permutation.',
